@@ -925,10 +925,37 @@ func c18OneRequest(r *Report, rule string) {
 		}
 		r.Check(timed == nil, rule, nm+"/fetcher-does-not-wait", pos, "no timer or sleep on the fetcher's paths", msg)
 		// (b) no request after a request, except by moving on to the next part of the range (a loop iteration)
+		// a request: a call of Get, or of a function of package tor that reaches one (fetchPart(ctx, ws, t, fc, w))
+		reachMemo := map[*ssa.Function]bool{}
+		var reachesGet func(g *ssa.Function, d int) bool
+		reachesGet = func(g *ssa.Function, d int) bool {
+			if gets[g] {
+				return true
+			}
+			if v, ok := reachMemo[g]; ok {
+				return v
+			}
+			reachMemo[g] = false
+			if d > 4 || g.Blocks == nil || relPkg(g) != "tor" {
+				return false
+			}
+			res := false
+			allInstrs(g, func(in ssa.Instruction) {
+				if c, ok := in.(*ssa.Call); ok && !c.Call.IsInvoke() && !res {
+					if h := c.Call.StaticCallee(); h != nil && reachesGet(h, d+1) {
+						res = true
+					}
+				}
+			})
+			reachMemo[g] = res
+			return res
+		}
 		var sites []*ssa.Call
 		allInstrs(f, func(in ssa.Instruction) {
-			if c, ok := in.(*ssa.Call); ok && !c.Call.IsInvoke() && gets[c.Call.StaticCallee()] {
-				sites = append(sites, c)
+			if c, ok := in.(*ssa.Call); ok && !c.Call.IsInvoke() {
+				if h := c.Call.StaticCallee(); h != nil && h != f && reachesGet(h, 0) {
+					sites = append(sites, c)
+				}
 			}
 		})
 		loops := naturalLoops(f)
